@@ -6,6 +6,16 @@ props = [json.loads(l) for l in open(os.path.join(here, "properties.jsonl"))]
 
 TECH = "contract-based deductive verification: "
 CHECKS = {
+ "C07": dict(engine="pyvc",
+   text="ProductKernel.__init__/Iq and _intermediates are executed symbolically from the AST of the current tree for symbolic "
+        "p_npars, s_npars, magnetic count, volfraction position, weight count and nq (flag combinations enumerated); the exact "
+        "value vectors and dispersity slices handed to P.Fq and S.Iq, the R_eff/volfraction injection, the combination formula "
+        "with and without beta, the reported intermediates and the frame (caller's arrays unmodified) are postconditions "
+        "discharged by z3.",
+   note="reals for floats; P.Fq, S.Iq, make_details replaced by their contracts; the linear search for 'volfraction' in __init__ is "
+        "summarised; the combined-table layout precondition is checked as a bounded run-time contract on all builtin (P,S) pairs",
+   technique=TECH + "Python AST -> VCs -> z3, counter-models replayed on the real ProductKernel with recording stub kernels",
+   design="DESIGN.md 6 C07"),
  "C08": dict(engine="pyvc",
    text="MixtureKernel.__init__/Iq and _MixtureParts.* are executed symbolically from the AST of the current tree "
         "(symbolic parameter counts, magnetic counts, weight-vector length, nq and part intensities; 1..4 parts enumerated = the "
